@@ -10,20 +10,20 @@ TECH = "Rocq/Coq proof over executable model + differential correspondence check
 
 # session-3 addenda to the level texts (appended by the generator)
 ADDENDA = {
-    "C01": " Also: units are the accepted messages in FIFO order (ghost log), a unit is delivered exactly once iff it is not silent, a reply body is the outcome of the unique handler invocation; no reachable state has crashed (C08), so no crash hypothesis remains.",
+    "C01": " Liveness as EVENTUALLY (release steps and handler returns strictly decrease a measure: everything accepted is answered). Also: units are the accepted messages in FIFO order (ghost log), a unit is delivered exactly once iff it is not silent, a reply body is the outcome of the unique handler invocation; no reachable state has crashed (C08), so no crash hypothesis remains.",
     "C02": " Also: survival stated on reach/step with no crash disjunct; every emitted response is id-null -32700/-32600 or the reply to a received call.",
     "C03": " Also in step and trace form (the notification's completion precedes every later handler entry), the liveness half at quiescence, arrival order = unit order; racing scenarios and scripted histories in the harness.",
     "C04": " Nothing partial: a returned value is the first member delivered for that id while pending (ghost delivery log), order/partition irrelevance, wire ids and spec order of batches, single consumer per reply.",
     "C05": " Nothing partial: liveness at quiescence and reachability of quiescence by release steps (measure), OnCancel exactly-once counting, OnStop once with the first cause, Close returns only after every callback handler, no goroutine left, failure outcomes. The client harness has a racing mode (monitors only).",
     "C06": " Also: step-level work conservation (a released slot is handed to the head waiter in the same window), waits only when full in every reachable state.",
     "C07": " Also: free iff no unfinished holder, a freed id is accepted again, delivering one unit leaves other units' reservations and contexts alone. The base context (ServerOptions.NewContext) is not in the model: that cause is covered by racing scenarios and monitors only.",
-    "C08": " Also: status flags as WaitStatus computes them, notifications handled after a stop, no callback watcher left, Start enabled after WaitStatus, release steps strictly decrease a measure (eventual quiescence/termination). Remaining _partial: the restart simulation (c08_restart_fresh_partial, c08_restart_state_partial).",
+    "C08": " Also: status flags as WaitStatus computes them, notifications handled after a stop, no callback watcher left, Start enabled after WaitStatus, release steps strictly decrease a measure (eventual quiescence/termination). Restart: a restarted server is bisimilar to a fresh one for servers without push (c08_restart_simulation_nopush); remaining _partial: c08_restart_simulation_partial (histories with callback records).",
     "C09": " Also: gate and late replies stated on step from reachable states, exactly one return per push call over whole traces.",
-    "C10": " Also: every run of the server model mapped to lock/Send/Recv/Close events is well-locked and disciplined; client half (module Cli): Close once, every channel operation inside one critical section, none after stop, single reader. The check drives both sides (families c10 and cli:c10).",
+    "C10": " Byte level: what the server and client models pass to Send encodes to one JSON object or non-empty array of objects that parses back (module Bytes10). Also: every run of the server model mapped to lock/Send/Recv/Close events is well-locked and disciplined; client half (module Cli): Close once, every channel operation inside one critical section, none after stop, single reader. The check drives both sides (families c10 and cli:c10).",
     "C11": " Also: Direct under every interleaving of Send/Recv/Close, independence of the reader window, chunked-reader models for the split and header framings (recv over any chunking = recv over the concatenation), RawJSON literals.",
     "C12": " Also: explicit Content-Length rejection, remaining stream is a suffix for every outcome, RawJSON error stickiness and truncation kind, per-call (every n) no-crash theorems, RawJSON records are valid per the independent JSON grammar.",
-    "C13": " Nothing partial: parse-of-print of the JSON model proved for all inputs, batch form, error-object fallback of fix a8edc0b (encoder total).",
-    "C14": " Also: after fix a8edc0b a reply is never lost (undeliverable error data are dropped), batch members independent; old behaviour behind switch fix16 with refutation witnesses.",
+    "C13": " Also: compaction preserves the JSON value, null ids/params, bridge replies, every record the transition models emit is a message at byte level. Nothing partial: parse-of-print of the JSON model proved for all inputs, batch form, error-object fallback of fix a8edc0b (encoder total).",
+    "C14": " Also: the two JSON models (Errs scanner, Json tree) are proved equal, data arrive equal as JSON values, Batch and callback directions, nesting side condition. After fix a8edc0b a reply is never lost (undeliverable error data are dropped), batch members independent; old behaviour behind switch fix16 with refutation witnesses.",
     "C15": " Also: check_info, handle-once (calls <= 1, result and error unchanged), non-interference of concurrent calls with per-call scratch state.",
     "C16": " Also: null elements, iff form of acceptance, Args marshalling elementwise, Obj leaves absent targets untouched also on failure.",
     "C17": " Also: serverInfo method list, Names duplicate-free, the gate of the dispatch model linked to SrvModel.assign_method on every reachable state, context record (assigner and handler see the dispatched request; only the handler sees the server).",
